@@ -47,7 +47,7 @@ def firmware(seed, n, tail):
     return bytes(data)
 
 
-def run(page_count, fw, schedule, workdir, symlink=False):
+def run(page_count, fw, schedule, workdir, symlink=False, device_id='28e9:0189', present=True):
     """Returns dict(exit=..., out=..., device=..., clock=...).  symlink: the path on the command line is a symbolic link
     to the firmware file (latest.bin -> firmware-v2.bin), as release directories often have it."""
     dfu = load_dfu()
@@ -65,9 +65,9 @@ def run(page_count, fw, schedule, workdir, symlink=False):
         with open(path, 'wb') as f:
             f.write(fw)
     old = (dfu.usb, dfu.time, sys.argv)
-    dfu.usb = dfusim.FakeUsb(dev)
+    dfu.usb = dfusim.FakeUsb(dev if present else None)
     dfu.time = dfusim.FakeTime(clock)
-    sys.argv = ['bronzebeard-dfu', '28e9:0189', path]
+    sys.argv = ['bronzebeard-dfu', device_id, path]
     exit_ = None
     try:
         with env.quiet_stdio() as (o, e):
